@@ -8,7 +8,7 @@ package config
 //@ func (*Config).MaxReadDepth
 //@   trusted
 //@   pure
-//@   ensures result >= 1
+//@   ensures result >= 1 && result <= 2147483647
 
 //@ func (*Config).MaxReadWidth
 //@   trusted
